@@ -16,6 +16,9 @@ LABELS = ["13C", "15N", "18O", "17O", "34S", "D", "T", "2H"]
 IONS = ["p", "b", "y", "c", "z"]
 
 
+
+RULE_EXTRA = ('every second event uses ONE parsed object per form for all queries (composition first); Fragmenter and mz pairs; terminal targets in the ProForma 2.0 spelling; the label shift of an ion type (p, b, y, c, z) is the same at charges 0, 1, 2, -1, -2.')
+
 def gen_static(rnd):
     n = rnd.randint(1, 20)
     A = anngen.annotation(rnd, n, n, alphabet=RES, kinds="massy2", intervals=False, density=0.2,
